@@ -96,6 +96,8 @@ def string_oracle(case):
                 return ("helper.stringvalue and Base._stringtokenvalue disagree on a STRING token", "disagree")
         else:
             v = text
+            if rep_ok(v) == "newline":
+                return None          # not a value any parse produces (and not representable in CSS text at all)
         t1 = helper.string(v)
         toks2 = _tok1(t1 + follow)
         feat = feature(v) + head_tag(v)
@@ -125,13 +127,57 @@ def _end_col(t):
     return line, col
 
 
+_HEX = "0123456789abcdefABCDEF"
+_NL = {"\n": "\\a ", "\r": "\\d ", "\f": "\\c "}
+
+
 def ref_string(v):
-    """reference copy of helper.string as it is at the pinned HEAD: the open string findings are recognised only while
-    the text written for the value is exactly this one (a regression that writes something else is reported)"""
-    v = v.replace("\n", "\\a ").replace("\r", "\\d ").replace("\f", "\\c ").replace('"', '\\"')
-    if v.endswith("\\"):
-        v = v[:-1] + "\\\\"
-    return '"%s"' % v
+    """reference copy of helper.string as it is at the pinned HEAD (the three-state scanner of the repair): the open
+    string finding is recognised only while the text written for the value is exactly this one"""
+    out, st = [], 0
+    for c in v:
+        if st == 1:
+            if c == "\\":
+                out.append("\\")
+                st = 2
+                continue
+            out.append("\\5c " if c in _HEX else "\\")
+            st = 0
+        elif st == 2:
+            if c == "\\":
+                out.append("\\")
+                st = 1
+                continue
+            out.append("\\5c " if c in _HEX else "\\")
+            st = 0
+        elif c == "\\":
+            st = 1
+            continue
+        out.append('\\"' if c == '"' else _NL.get(c, c))
+    if st == 1:
+        out.append("\\\\")
+    elif st == 2:
+        out.append("\\\\5c ")
+    return '"%s"' % "".join(out)
+
+
+def rep_ok(v):
+    """QuoteFacts.rep_ok: the values string_roundtrip is proved for. Returns None (representable) or the reason:
+    'dquote' (an escape-introducing backslash directly before a double quote) / 'newline' (a backslash before a
+    newline character; no CSS text denotes such a value, Tokenizer.cleanstring removes it)"""
+    st = 0
+    for c in v:
+        if st == 0:
+            st = 1 if c == "\\" else 0
+        elif c == "\\":
+            st = 2 if st == 1 else 1
+        else:
+            if c in "\n\r\f":
+                return "newline"
+            if st == 1 and c == '"':
+                return "dquote"
+            st = 0
+    return None
 
 
 def head_tag(v):
@@ -145,10 +191,11 @@ def head_tag(v):
 
 def feature(v):
     """crude, stable feature of a string value used in finding signatures"""
-    if re.search(r'(?<!\\)(?:\\\\)*\\"', v):
+    r = rep_ok(v)
+    if r == "dquote":
         return "value has a double quote preceded by an odd number of backslashes"
-    if re.search(r'\\[0-9a-fA-F\n\r\f]', v):
-        return "value has a backslash followed by a hex digit or newline"
+    if r == "newline":
+        return "value has a backslash before a newline character"
     if "\\" in v:
         return "value has a backslash"
     return "backslash-free value"
@@ -191,12 +238,15 @@ def gen_function_cases(ctx, thorough):
 def gen_string_cases(ctx, thorough):
     rng = ctx.rng
     cases = []
-    # claimed domain of string_roundtrip: backslash-free values, every follow
+    # domain of string_roundtrip: every value (representable ones must hold; an escape-introducing backslash before a
+    # double quote is the open finding; backslash + newline is skipped by the oracle), every follow
     for n in range(0, 3):
-        for tup in itertools.product(NOBS, repeat=n):
+        for tup in itertools.product(ALPHA, repeat=n):
             v = "".join(tup)
             cases.append(("v", v, rng.choice(FOLLOWS)))
-    for tup in itertools.product(NOBS[:14], repeat=3):
+    for tup in itertools.product(ALPHA[:15], repeat=3):
+        cases.append(("v", "".join(tup), rng.choice(FOLLOWS)))
+    for tup in itertools.product(ALPHA[:8], repeat=4 if not thorough else 5):
         cases.append(("v", "".join(tup), rng.choice(FOLLOWS)))
     for f in FOLLOWS:
         for v in ["", "a", '"', "'", "\n", "a\nb\r\fc", "\xe9\U0001f600", 'say "hi"', "it's", "a/*b*/", "\x00"]:
@@ -640,7 +690,7 @@ def run(ctx):
                 "newline kinds, hex digits, blanks, non-ASCII incl. astral and a lone surrogate) + all length-3 strings over "
                 "its 16 structural symbols + random strings of 4-24 symbols, each through helper.string / helper.stringvalue / "
                 "_stringtokenvalue (%d exhaustive lines) and through the composed first-token round trip (quoted, serialised, raw); "
-                "string-level oracle: %d backslash-free values x follow texts (claimed domain of string_roundtrip) and %d quoted "
+                "string-level oracle: %d values (with backslashes) x follow texts (domain of string_roundtrip) and %d quoted "
                 "sources with escapes (parsed domain); end to end: %d generated sheets (sizes 1-8) with all sub-objects. "
                 "non-trivial = composed lines whose first token is a STRING + non-empty sheets"
                 % (len(ALPHA), n_exh, n_claimed, len(scases) - n_claimed, len(e2e)),
